@@ -35,7 +35,9 @@ RULE = (
     "the same typed value, and after a rejected one the view is unchanged.  Every history runs next to 1-3 bystander records (same "
     "descriptor; another descriptor with the same field types) holding ordinary values (False / True / 0 / '' / [] / small ints): their "
     "deep observation, packed bytes and repr, taken when they were built, are compared after EVERY operation on the focus record.  "
-    "'groupoverlap' cases build grouped records of 2-4 members that share a field name with different types (every ordered pair of 18 type "
+    "'copies' cases apply the replace-style operations of plain and grouped records (_replace with no / one member's / every field, extend_record, "
+    "init_from_record, init_from_dict(_asdict()), RecordFieldRewriter with fields / exclude / expression) and then assign every field of the copy and of "
+    "the original: the other one's observation, packed bytes and repr must not change, and no record object may be shared.  'groupoverlap' cases build grouped records of 2-4 members that share a field name with different types (every ordered pair of 18 type "
     "families; the shared name first / middle / last; a second shared name; the reserved names, which all members have): after construction, "
     "assignment through the group, _replace and a stream / JSON round trip every flat field's value must be of the type the flat descriptor "
     "declares.  The pools of every text-parsing type hold Unicode look-alikes of well-formed text (digits of six other scripts, superscript / "
@@ -82,6 +84,10 @@ ASSUMPTIONS = [
     "nested-record fields receive records and None only (documented pass-through type); record[] elements are records",
     "in-place mutation of a typed list is not an attribute assignment: it is generated only in the 'alias' cases, with values that already are "
     "of the element type, to observe that default objects are not shared between records",
+    "replace-style operations (_replace, extend_record, init_from_record / init_from_dict, RecordFieldRewriter) make SHALLOW copies on the unchanged tree: field "
+    "value objects (typed lists, digests, commands, nested records) are shared between original and copy, record objects (the copy, member records of a "
+    "grouped copy) are not; GroupedRecord(name, records) is a view on the caller's member records; the 'copies' family therefore judges assignments and "
+    "record-object identity, not in-place fills of shared value objects",
     "sharing is judged only for default objects the library creates; a _replace copy shares the values of its source record by design, so "
     "_replace / init_from_record sources are throw-away records outside the observed set",
     "text with a lone surrogate outside U+DC80-DCFF is offered to string / wstring / uri (scalar and list), dynamic, _source and "
@@ -94,7 +100,7 @@ ASSUMPTIONS = [
     "the instance, the call fails whatever the value); such records are built through recordType(**kwargs) and positional arguments",
 ]
 SHARDS = {"quick": 8, "thorough": 16}
-BUDGET_S = {"quick": 150, "thorough": 1800}
+BUDGET_S = {"quick": 150, "thorough": 3600}
 
 ANCHORS = [
     "flow.record.base:Record.__setattr__",
@@ -132,6 +138,8 @@ KEY_HISTORY = "acceptance-depends-on-history"
 OVERLAP_FAMILIES = ["string", "varint", "uint16", "boolean", "float", "bytes", "datetime", "digest", "net.ipaddress", "net.ipnetwork", "path", "command", "uri", "string[]",
                     "varint[]", "stringlist", "dictlist", "dynamic"]
 KEY_GROUP_FLAT = "grouped-flat-field-type-disagrees-with-value"
+KEY_COPY_ALIAS = "copy-shares-record-with-original"
+COPY_FIELD_TYPES = ["string", "varint", "uint16", "boolean", "string[]", "varint[]", "digest", "command", "bytes", "datetime", "net.ipaddress", "path", "float", "stringlist"]
 PAIR_OPS = (("assign", "assign"), ("ctor_kwargs", "assign"), ("assign", "replace"), ("group_assign", "from_dict"), ("replace", "group_assign"), ("from_dict", "ctor_args"),
             ("from_record", "assign"), ("ctor_args", "from_record"))
 KEY_BYSTANDER = "operation-changes-another-record"
@@ -201,6 +209,10 @@ def generate(ctx):
                     c["allops"] = True  # every unusual input through every operation kind
                 yield c
             idx += 1
+    for rep in range(ctx.scale(40, 1500)):
+        if ctx.mine(idx):
+            yield {"k": "copies", "s": subseed("c05", ctx.seed, "copies", rep)}
+        idx += 1
     # grouped records whose members share a field name with DIFFERENT types: every ordered pair of type families; quick samples the
     # position of the shared name, thorough enumerates first / middle / last
     fams = OVERLAP_FAMILIES
@@ -914,6 +926,107 @@ def run_sweep(ctx, case):
                 h.end()
     h.end()
     ctx.sample({"case": case, "descriptor": [h.desc.name, h.fields], "operations": h.log[:6] + ["... %d in total" % len(h.log)]}, kind="sweep:" + op)
+
+
+def run_copies(ctx, case):
+    """Replace-style operations of plain and grouped records (_replace with no / one / several / all members' fields, extend_record
+    with and without replace / rename, init_from_record, init_from_dict(_asdict()), RecordFieldRewriter with fields / exclude /
+    expression) yield a COPY: (1) assigning every field of the copy (through the copy itself, i.e. through the group for grouped
+    copies) leaves the original's observation, packed bytes and repr unchanged, and assigning every field of the original leaves
+    the copy unchanged; (2) no record object - the copy itself or a member record - is shared with the original.  The copies are
+    shallow by design: field VALUE objects (typed lists, digests, commands, nested records) are shared, so in-place fills of such
+    values are not judged here (see ASSUMPTIONS)."""
+    import flow.record.base as base
+    from flow.record import GroupedRecord, RecordDescriptor, extend_record
+    from flow.record.stream import RecordFieldRewriter
+
+    rng = random.Random(case["s"])
+    tag = gen.rand_ident(rng)
+
+    def make(i, nfields):
+        fields = [(rng.choice(COPY_FIELD_TYPES), "m%d_f%d" % (i, j)) for j in range(nfields)]
+        d = RecordDescriptor("c05/copy_%s_%d" % (tag, i), fields)
+        return d.recordType(*[ordinary_value(t, rng) for t, _ in fields], _generated=BY_STAMP, _source="m%d" % i)
+
+    grouped = rng.random() < 0.6
+    members = [make(i, rng.randint(1, 4)) for i in range(rng.randint(2, 4) if grouped else 1)]
+    orig = GroupedRecord("c05/copygroup_" + tag, members) if grouped else members[0]
+    other = make(9, rng.randint(1, 3))
+
+    def fields_of(r):
+        recs = r.records if isinstance(r, base.GroupedRecord) else [r]
+        return [(t, n) for m in recs for t, n in m._desc.get_field_tuples()]
+
+    names = [n for _, n in fields_of(orig)]
+    per_member = [[n for _, n in m._desc.get_field_tuples()] for m in members]
+    types = dict((n, t) for t, n in fields_of(orig))
+    ops = []
+    ops.append(("_replace()", lambda: orig._replace()))
+    for mi, mnames in enumerate(per_member):
+        n = rng.choice(mnames)
+        ops.append(("_replace(one field of member %d)" % mi, lambda n=n: orig._replace(**{n: ordinary_value(types[n], rng)})))
+    ops.append(("_replace(every data field)", lambda: orig._replace(**{n: ordinary_value(types[n], rng) for n in names})))
+    ops.append(("_replace(_source)", lambda: orig._replace(_source="replaced")))
+    ops.append(("extend_record", lambda: extend_record(orig, [other])))
+    ops.append(("extend_record(replace, name)", lambda: extend_record(orig, [other], replace=True, name="c05/copyext_" + tag)))
+    ops.append(("init_from_record", lambda: RecordDescriptor("c05/copyifr_" + tag, fields_of(orig)).init_from_record(orig)))
+    ops.append(("init_from_dict(_asdict())", lambda: RecordDescriptor("c05/copyifd_" + tag, fields_of(orig)).init_from_dict(orig._asdict())))
+    ops.append(("rewrite(fields)", lambda: RecordFieldRewriter(fields=rng.sample(names, max(1, len(names) // 2))).rewrite(orig)))
+    ops.append(("rewrite(exclude)", lambda: RecordFieldRewriter(exclude=[rng.choice(names)]).rewrite(orig)))
+    ops.append(("rewrite(expression)", lambda: RecordFieldRewriter(expression="zz_new = 1").rewrite(orig)))
+    if grouped:
+        ops.append(("GroupedRecord(name, copies of the members)", lambda: GroupedRecord(orig.name, [m._replace() for m in orig.records])))
+    chosen = rng.sample(ops, min(len(ops), 5))
+
+    def record_objects(r):
+        return [r] + (list(r.records) if isinstance(r, base.GroupedRecord) else [])
+
+    def assign_all(target, watched, label, info):
+        """assign every data field and two metadata fields of `target`; after each assignment `watched` must be what it was"""
+        before = bystander_state(watched)
+        tnames = [(t, n) for t, n in fields_of(target)] + [("string", "_source"), ("string", "_classification")]
+        for t, n in tnames:
+            if isinstance(target, base.GroupedRecord) and n in vars(target):
+                continue
+            try:
+                setattr(target, n, ordinary_value(t, rng) if not n.startswith("_") else "assigned-" + label)
+                ctx.event("copies_assignments")
+            except Exception:  # noqa: BLE001
+                ctx.event("copies_assignment_raised")
+                continue
+            ctx.ev()
+            after = bystander_state(watched)
+            if after != before:
+                what = [x for x, a, b in zip(("observation", "digest bytes", "packed bytes", "repr"), after, before) if a != b]
+                ctx.violation(KEY_COPY_ALIAS, "assigning a field of the %s changed the %s (%s)" % (label, "original" if label == "copy" else "copy", ", ".join(what)),
+                              detail=dict(info, assigned_field=n, diff=observe.first_diff(before[0], after[0])))
+                before = after
+
+    for label, op in chosen:
+        info = {"case": case, "operation": label, "original": repr(orig)[:300]}
+        try:
+            copy = op()
+        except Exception as e:  # noqa: BLE001 - whether the operation is possible for this shape is not C05's subject
+            ctx.event("copies_operation_raised")
+            ctx.note("copies_operation_raised:" + label.split("(")[0], repr(e)[:100])
+            continue
+        ctx.cell("copies", "grouped" if grouped else "plain", label.split(" of member")[0])
+        ctx.nontrivial("copies", grouped, label, case["s"])
+        ctx.event("copies_checked")
+        try:
+            observe.assert_typed(copy, "copy")
+        except observe.Untyped as e:
+            ctx.violation(None, "untyped slot in the result of %s" % label, detail=dict(info, error=str(e)))
+        shared = [type(x).__name__ for x in record_objects(copy) if any(x is y for y in record_objects(orig))]
+        if shared:
+            ctx.violation(KEY_COPY_ALIAS, "the result of a replace-style operation shares a record object with the original", detail=dict(info, shared=shared))
+        assign_all(copy, orig, "copy", info)
+        try:
+            copy2 = op()
+        except Exception:  # noqa: BLE001
+            continue
+        assign_all(orig, copy2, "original", info)
+    ctx.sample({"case": case, "shape": "grouped" if grouped else "plain", "operations": [lab for lab, _ in chosen]}, kind="copies:" + ("grouped" if grouped else "plain"))
 
 
 def flat_view_typed(ctx, g, where, info):
@@ -2101,7 +2214,9 @@ def run_alias(ctx, case):
 
 def execute(ctx, case):
     k = case["k"]
-    if k == "groupoverlap":
+    if k == "copies":
+        run_copies(ctx, case)
+    elif k == "groupoverlap":
         run_groupoverlap(ctx, case)
     elif k == "pairs":
         run_pairs(ctx, case)
@@ -2150,6 +2265,8 @@ def finish(ctx):
     ctx.require(ev.get("alias_identity_checked", 0) > 0, "the default-object identity check never ran")
     ctx.require(ev.get("history_consistency_checked", 0) > 0, "the history-independence monitor never ran")
     ctx.require(ev.get("json_pack_checked", 0) > 0, "the JSON serialisation check never ran")
+    if any(c.startswith("copies/") for c in ctx.cells):
+        ctx.require(ev.get("copies_assignments", 0) > 0, "the copy-aliasing monitor performed no assignment")
     if any(c.startswith("groupoverlap/") for c in ctx.cells):
         ctx.require(ev.get("group_flat_fields_checked", 0) > 0, "the grouped flat-view monitor never ran")
     ctx.require(any("/lookalike/" in c for c in ctx.cells), "no Unicode look-alike candidate was offered")
